@@ -2,6 +2,13 @@ import Mkts.Model.Csv
 /-! Helper lemmas for C33: the loader on well-formed records. -/
 namespace Mkts.Csv
 
+/-! ## the four statements of the current source (regenerated skeletons, `decide`) -/
+
+theorem code_reports_reader_errors : readerErrorReported = true := by decide
+theorem code_reports_time_errors : timeErrorReported = true := by decide
+theorem code_timestamp_default_zone : timestampUsesDefaultZone = true := by decide
+theorem code_checks_fixup_bounds : fixupBoundsChecked = true := by decide
+
 /-- the instant (ns) of a record's time field read with the configured format, no tuning -/
 def timeNs (cfg : Config) (r : Rec) : Int :=
   match parseTime cfg (r.getD 0 []) 0 with
@@ -40,7 +47,7 @@ theorem read_good {cfg : Config} {n : Nat} {idx : List Nat} {r : Rec} (h : GoodR
 
 theorem readChunk_good {cfg : Config} {n : Nat} {idx : List Nat} (k : Nat) (rs : List Rec)
     (h : ∀ r ∈ rs, GoodRec cfg n idx r) :
-    readChunk n k rs = (rs.take k, decide (rs.length < k), rs.drop k) := by
+    readChunk n k rs = (rs.take k, if rs.length < k then ChunkEnd.eof else ChunkEnd.more, rs.drop k) := by
   induction k generalizing rs with
   | zero => simp [readChunk]
   | succ k ih =>
@@ -127,6 +134,10 @@ theorem loadLoop_good (cfg : Config) (n : Nat) (idx : List Nat) (k : Nat) (hk : 
   | succ fuel ih =>
     rw [loadLoop, readChunk_good k rs h]
     simp only []
+    have hnr : ((if rs.length < k then ChunkEnd.eof else ChunkEnd.more) == ChunkEnd.readerErr) = false := by
+      split <;> rfl
+    rw [hnr]
+    simp only [Bool.false_and, Bool.false_eq_true, if_false]
     cases rs with
     | nil => simp
     | cons r rest =>
@@ -144,17 +155,20 @@ theorem loadLoop_good (cfg : Config) (n : Nat) (idx : List Nat) (k : Nat) (hk : 
         | zero => omega
         | succ k => simp
       by_cases hend : (r :: rest).length < k
-      · simp only [hend, decide_true, if_true]
+      · have hm' : (ChunkEnd.eof != ChunkEnd.more) = true := by decide
+        simp only [hend, if_true, hm']
         have : (r :: rest).take k = r :: rest := List.take_of_length_le (by omega)
         refine ⟨by simp, by simp [this], ?_⟩
         intro c hc
-        simp only [List.mem_singleton] at hc
-        subst hc
+        have hc' : c = ((r :: rest).take k).map (rowOf cfg idx) := by simpa using hc
+        subst hc'
         exact ⟨by simpa using hlen, hne'⟩
-      · simp only [hend, decide_false, Bool.false_eq_true, if_false]
+      · simp only [hend, if_false]
         have hdrop : ((r :: rest).drop k).length < fuel := by
           simp only [List.length_drop, List.length_cons] at hf ⊢; omega
         obtain ⟨h1, h2, h3⟩ := ih ((r :: rest).drop k) hdrop (fun x hx => h x (List.mem_of_mem_drop hx))
+        have hm : (ChunkEnd.more != ChunkEnd.more) = false := by decide
+        simp only [hm, Bool.false_eq_true, if_false]
         refine ⟨h1, ?_, ?_⟩
         · simp only [List.flatten_cons, h2]
           rw [← List.map_append, List.take_append_drop]
@@ -163,7 +177,7 @@ theorem loadLoop_good (cfg : Config) (n : Nat) (idx : List Nat) (k : Nat) (hk : 
           · exact ⟨by simpa using hlen, hne'⟩
           · exact h3 c hc
 
-/-! ## a malformed record in the middle: the general form of the silent truncation -/
+/-! ## a malformed record in the middle is reported -/
 
 /-- a record the csv reader returns with an error (wrong field count or bare quote) -/
 structure BadRec (n : Nat) (r : Rec) : Prop where
@@ -181,7 +195,7 @@ theorem read_bad {n : Nat} {r : Rec} (h : BadRec n r) (rest : List Rec) : read n
 theorem readChunk_prefix_bad {cfg : Config} {n : Nat} {idx : List Nat} (k : Nat) (p : List Rec) (bad : Rec)
     (rest : List Rec) (hp : ∀ r ∈ p, GoodRec cfg n idx r) (hbad : BadRec n bad) :
     readChunk n k (p ++ bad :: rest) =
-      if p.length < k then (p, true, rest) else (p.take k, false, p.drop k ++ bad :: rest) := by
+      if p.length < k then (p, ChunkEnd.readerErr, rest) else (p.take k, ChunkEnd.more, p.drop k ++ bad :: rest) := by
   induction k generalizing p with
   | zero => simp [readChunk]
   | succ k ih =>
@@ -195,27 +209,28 @@ theorem readChunk_prefix_bad {cfg : Config} {n : Nat} {idx : List Nat} (k : Nat)
       · simp [h]
       · simp [h]
 
-/-- good records, then a malformed one, then anything: the load ends `ok` with exactly the rows
-    before the malformed record — for every chunk size -/
-theorem loadLoop_truncated (cfg : Config) (n : Nat) (idx : List Nat) (k : Nat) (hk : 1 ≤ k)
+/-- good records, then a malformed one, then anything: the load ends with the reader error; what
+    was handed to the writer before is a prefix of the good rows (the complete chunks before the
+    chunk that contains the malformed record) -/
+theorem loadLoop_malformed (cfg : Config) (n : Nat) (idx : List Nat) (k : Nat) (hk : 1 ≤ k)
     (htz : ∀ h : cfg.tz = .invalid, False) (hb : cfg.schema.any (fun c => c.2 == .bool) = false)
     (bad : Rec) (rest : List Rec) (hbad : BadRec n bad)
     (fuel : Nat) (p : List Rec) (hf : (p ++ bad :: rest).length < fuel) (hp : ∀ r ∈ p, GoodRec cfg n idx r) :
-    (loadLoop cfg n 0 idx k fuel (p ++ bad :: rest)).status = .ok ∧
-    (loadLoop cfg n 0 idx k fuel (p ++ bad :: rest)).chunks.flatten = p.map (rowOf cfg idx) := by
+    (loadLoop cfg n 0 idx k fuel (p ++ bad :: rest)).status = .errReader ∧
+    ∃ m, m ≤ p.length ∧
+      (loadLoop cfg n 0 idx k fuel (p ++ bad :: rest)).chunks.flatten = (p.take m).map (rowOf cfg idx) := by
   induction fuel generalizing p with
   | zero => omega
   | succ fuel ih =>
     rw [loadLoop, readChunk_prefix_bad k p bad rest hp hbad]
     by_cases hlt : p.length < k
-    · simp only [hlt, if_true]
-      cases p with
-      | nil => simp
-      | cons r p' =>
-        simp only [List.isEmpty_cons, Bool.false_eq_true, if_false]
-        rw [convertChunk_good cfg n idx _ htz hb hp]
-        simp
+    · have hb' : (ChunkEnd.readerErr == ChunkEnd.readerErr && readerErrorReported) = true := by
+        simp [code_reports_reader_errors]
+      simp only [hlt, if_true, hb']
+      exact ⟨by simp, 0, by omega, by simp⟩
     · simp only [hlt, if_false]
+      have hm : (ChunkEnd.more == ChunkEnd.readerErr) = false := by decide
+      simp only [hm, Bool.false_and, Bool.false_eq_true, if_false]
       cases p with
       | nil => simp at hlt; omega
       | cons r p' =>
@@ -226,12 +241,235 @@ theorem loadLoop_truncated (cfg : Config) (n : Nat) (idx : List Nat) (k : Nat) (
         rw [hne]
         simp only [Bool.false_eq_true, if_false]
         rw [convertChunk_good cfg n idx _ htz hb (fun x hx => hp x (List.mem_of_mem_take hx))]
-        simp only []
+        have hm2 : (ChunkEnd.more != ChunkEnd.more) = false := by decide
+        simp only [hm2, Bool.false_eq_true, if_false]
         have hlen : (((r :: p').drop k) ++ bad :: rest).length < fuel := by
           simp only [List.length_append, List.length_drop, List.length_cons] at hf ⊢; omega
-        obtain ⟨h1, h2⟩ := ih ((r :: p').drop k) hlen (fun x hx => hp x (List.mem_of_mem_drop hx))
-        refine ⟨h1, ?_⟩
-        simp only [List.flatten_cons, h2]
-        rw [← List.map_append, List.take_append_drop]
+        obtain ⟨h1, m, hm3, h2⟩ := ih ((r :: p').drop k) hlen (fun x hx => hp x (List.mem_of_mem_drop hx))
+        refine ⟨h1, k + m, ?_, ?_⟩
+        · simp only [List.length_drop] at hm3; omega
+        · simp only [List.flatten_cons, h2]
+          rw [← List.map_append]
+          congr 1
+          rw [List.take_add, List.take_drop]
+
+/-! ## arbitrary input: never a panic; `ok` only when every data row was handed to the writer -/
+
+def isBlank (r : Rec) : Bool := r == [[]]
+/-- number of data rows (non-blank records) -/
+def dataRows (rs : List Rec) : Nat := (rs.filter (fun r => !isBlank r)).length
+
+theorem parseTime_ok (cfg : Config) (dt : Str) (adj : Int) : ∃ o, parseTime cfg dt adj = .ok o := by
+  unfold parseTime
+  simp only [code_checks_fixup_bounds, code_timestamp_default_zone, if_true]
+  repeat' split
+  all_goals exact ⟨_, rfl⟩
+
+theorem timeRow_ok (cfg : Config) (st : Int × Bool) (dt : Str) : ∃ o, timeRow cfg st dt = .ok o := by
+  unfold timeRow
+  obtain ⟨o, ho⟩ := parseTime_ok cfg dt st.1
+  rw [ho]
+  cases o with
+  | some t => exact ⟨_, rfl⟩
+  | none =>
+    simp only []
+    split
+    · split
+      · obtain ⟨o2, ho2⟩ := parseTime_ok cfg dt ((dt.length : Int) - fmtLen cfg.fmt)
+        rw [ho2]
+        cases o2 <;> exact ⟨_, rfl⟩
+      · exact ⟨_, rfl⟩
+    · exact ⟨_, rfl⟩
+
+theorem timeLoop_ok (cfg : Config) (dts : List Str) (st : Int × Bool) :
+    ∃ o, timeLoop cfg st dts = .ok o ∧ ∀ ts, o = some ts → ts.length = dts.length := by
+  induction dts generalizing st with
+  | nil => exact ⟨some [], rfl, fun ts h => by cases h; rfl⟩
+  | cons dt rest ih =>
+    obtain ⟨o, ho⟩ := timeRow_ok cfg st dt
+    rw [timeLoop, ho]
+    cases o with
+    | none => exact ⟨none, rfl, fun ts h => by cases h⟩
+    | some p =>
+      obtain ⟨t, st'⟩ := p
+      obtain ⟨o2, ho2, hl⟩ := ih st'
+      simp only []
+      rw [ho2]
+      cases o2 with
+      | none => exact ⟨none, rfl, fun ts h => by cases h⟩
+      | some ts => exact ⟨some (t :: ts), rfl, fun ts' h => by cases h; simp [hl ts rfl]⟩
+
+theorem assemble_length (ts : List Int) (cols : List (List Int)) : (assemble ts cols).length = ts.length := by
+  induction ts generalizing cols with
+  | nil => rfl
+  | cons t ts ih => simp [assemble, ih]
+
+/-- one chunk: the conversion yields one row per record, or one of the three reported errors -/
+theorem convertChunk_cases (cfg : Config) (e : Nat) (idx : List Nat) (rows : List Rec) :
+    (∃ out, convertChunk cfg e idx rows = .ok out ∧ out.length = rows.length) ∨
+    convertChunk cfg e idx rows = .error .errTime ∨ convertChunk cfg e idx rows = .error .errColumn ∨
+    convertChunk cfg e idx rows = .error .errUnsupported := by
+  unfold convertChunk
+  have ht : ∃ o, readTimeColumns cfg e rows = .ok o ∧ ∀ ts, o = some ts → ts.length = rows.length := by
+    unfold readTimeColumns
+    obtain ⟨o, h1, h2⟩ := timeLoop_ok cfg (rows.map (·.getD e [])) (0, true)
+    cases cfg.tz with
+    | invalid => exact ⟨none, rfl, fun ts h => by cases h⟩
+    | empty => exact ⟨o, h1, fun ts h => by simpa using h2 ts h⟩
+    | zone z => exact ⟨o, h1, fun ts h => by simpa using h2 ts h⟩
+  obtain ⟨o, h1, h2⟩ := ht
+  rw [h1]
+  cases o with
+  | none => simp [code_reports_time_errors]
+  | some ts =>
+    simp only []
+    cases parseColumns cfg.schema idx rows with
+    | none => simp
+    | some cols =>
+      simp only []
+      split
+      · simp
+      · left
+        exact ⟨_, rfl, by rw [assemble_length, h2 ts rfl]⟩
+
+theorem read_facts (n : Nat) (rs : List Rec) :
+    match read n rs with
+    | .eof => dataRows rs = 0
+    | .err rest => rest.length < rs.length
+    | .row _ rest => dataRows rs = 1 + dataRows rest ∧ rest.length < rs.length := by
+  induction rs with
+  | nil => simp [read, dataRows]
+  | cons r rest ih =>
+    unfold read
+    by_cases hb : (r == [[]]) = true
+    · simp only [hb, if_true]
+      have e : dataRows (r :: rest) = dataRows rest := by simp [dataRows, isBlank, hb]
+      cases hr : read n rest with
+      | eof => rw [hr] at ih; simpa [e] using ih
+      | err rest' => rw [hr] at ih; simp only [List.length_cons] at ih ⊢; omega
+      | row r' rest' =>
+        rw [hr] at ih
+        simp only [List.length_cons, e] at ih ⊢
+        exact ⟨ih.1, by omega⟩
+    · have hb' : (r == [[]]) = false := by simpa using hb
+      simp only [hb', Bool.false_eq_true, if_false]
+      have e : dataRows (r :: rest) = 1 + dataRows rest := by
+        simp [dataRows, isBlank, hb']; omega
+      by_cases hq : hasBareQuote r = true
+      · simp [hq]
+      · by_cases hl : (r.length != n) = true
+        · simp [hq, hl]
+        · simp [hq, hl, e]
+
+/-- the read loop on arbitrary input -/
+theorem readChunk_facts (n : Nat) (k : Nat) (rs rows : List Rec) (ce : ChunkEnd) (rest : List Rec)
+    (h : readChunk n k rs = (rows, ce, rest)) :
+    (ce ≠ .readerErr → dataRows rs = rows.length + dataRows rest) ∧
+    (ce = .eof → rest = []) ∧
+    rest.length + rows.length ≤ rs.length ∧
+    (1 ≤ k → rows = [] → ce ≠ .more) := by
+  induction k generalizing rs rows ce rest with
+  | zero =>
+    simp only [readChunk, Prod.mk.injEq] at h
+    obtain ⟨rfl, rfl, rfl⟩ := h
+    refine ⟨?_, ?_, ?_, ?_⟩
+    · intro _; simp
+    · intro h; cases h
+    · simp
+    · intro h; omega
+  | succ k ih =>
+    have hr := read_facts n rs
+    rw [readChunk] at h
+    cases hrd : read n rs with
+    | eof =>
+      rw [hrd] at h hr
+      simp only [Prod.mk.injEq] at h hr
+      obtain ⟨rfl, rfl, rfl⟩ := h
+      refine ⟨?_, ?_, ?_, ?_⟩
+      · intro _; rw [hr]; rfl
+      · intro _; rfl
+      · simp
+      · intro _ _ h; cases h
+    | err rest0 =>
+      rw [hrd] at h hr
+      simp only [Prod.mk.injEq] at h hr
+      obtain ⟨rfl, rfl, rfl⟩ := h
+      refine ⟨?_, ?_, ?_, ?_⟩
+      · intro h; exact absurd rfl h
+      · intro h; cases h
+      · simp only [List.length_nil]; omega
+      · intro _ _ h; cases h
+    | row r rest0 =>
+      rw [hrd] at h hr
+      simp only [] at h hr
+      generalize ht : readChunk n k rest0 = t at h
+      obtain ⟨rows', ce', rest'⟩ := t
+      simp only [Prod.mk.injEq] at h
+      obtain ⟨rfl, rfl, rfl⟩ := h
+      obtain ⟨i1, i2, i3, _⟩ := ih rest0 rows' ce' rest' ht
+      refine ⟨fun hne => ?_, i2, ?_, fun _ h => by simp at h⟩
+      · have := i1 hne
+        simp only [List.length_cons]; omega
+      · simp only [List.length_cons]; omega
+
+/-- the load loop on ARBITRARY records (current source): never a panic, and status ok only when
+    every data row is in a dataset handed to the writer -/
+theorem loadLoop_any (cfg : Config) (n e : Nat) (idx : List Nat) (k : Nat) (hk : 1 ≤ k) (fuel : Nat)
+    (rs : List Rec) :
+    (loadLoop cfg n e idx k fuel rs).status.isPanic = false ∧
+    ((loadLoop cfg n e idx k fuel rs).status = .ok →
+      ((loadLoop cfg n e idx k fuel rs).chunks.map List.length).sum = dataRows rs) := by
+  induction fuel generalizing rs with
+  | zero => exact ⟨rfl, fun h => by cases h⟩
+  | succ fuel ih =>
+    rw [loadLoop]
+    generalize hrc : readChunk n k rs = t
+    obtain ⟨rows, ce, rest⟩ := t
+    obtain ⟨f1, f2, f3, f4⟩ := readChunk_facts n k rs rows ce rest hrc
+    simp only []
+    simp only [code_reports_reader_errors, Bool.and_true]
+    by_cases hre : ce = .readerErr
+    · subst hre
+      simp only [beq_self_eq_true, if_true]
+      exact ⟨rfl, fun h => by cases h⟩
+    · have hre' : (ce == ChunkEnd.readerErr) = false := by simpa using hre
+      simp only [hre', Bool.false_eq_true, if_false]
+      cases rows with
+      | nil =>
+        simp only [List.isEmpty_nil, if_true]
+        refine ⟨rfl, fun _ => ?_⟩
+        have hce : ce = .eof := by
+          have := f4 hk rfl
+          cases ce <;> simp_all
+        have := f1 hre
+        rw [f2 hce] at this
+        simpa [dataRows] using this.symm
+      | cons r rows' =>
+        simp only [List.isEmpty_cons, Bool.false_eq_true, if_false]
+        rcases convertChunk_cases cfg e idx (r :: rows') with ⟨out, ho, hl⟩ | he | he | he
+        · rw [ho]
+          simp only []
+          by_cases hmore : ce = .more
+          · subst hmore
+            have hm : (ChunkEnd.more != ChunkEnd.more) = false := by decide
+            simp only [hm, Bool.false_eq_true, if_false]
+            obtain ⟨i1, i2⟩ := ih rest
+            refine ⟨i1, fun hok => ?_⟩
+            have := i2 hok
+            have h1 := f1 hre
+            simp only [List.map_cons, List.sum_cons, this, hl]
+            omega
+          · have hm : (ce != ChunkEnd.more) = true := by simpa using hmore
+            simp only [hm, if_true]
+            refine ⟨rfl, fun _ => ?_⟩
+            have hce : ce = .eof := by cases ce <;> simp_all
+            have h1 := f1 hre
+            rw [f2 hce] at h1
+            simp only [List.map_cons, List.map_nil, List.sum_cons, List.sum_nil, hl]
+            simp [dataRows] at h1 ⊢
+            omega
+        · rw [he]; exact ⟨rfl, fun h => by cases h⟩
+        · rw [he]; exact ⟨rfl, fun h => by cases h⟩
+        · rw [he]; exact ⟨rfl, fun h => by cases h⟩
 
 end Mkts.Csv
